@@ -138,7 +138,7 @@ int main(int argc, char **argv) {
      * depend on every bit of both operands (an unreduced limb, a dropped carry) occur for about one pair in 10^5..10^6; the outputs of
      * every block of 2048 random pairs are folded into one digest per block, which must be identical in every configuration */
     { vrng MR; vrng_seed(&MR, 0x51a5e + (uint64_t) atoll(argv[1]), 9); unsigned char kk[32], uu[32], qq[32], acc[32];
-      size_t nblk = quick ? 256 : 4096;
+      size_t nblk = quick ? 256 : 1024;
       for (size_t blk = 0; blk < nblk; blk++) { memset(acc, 0, 32); int rets = 0;
           for (int j = 0; j < 2048; j++) { vrng_bytes(&MR, kk, 32); vrng_bytes(&MR, uu, 32); rets += crypto_scalarmult(qq, kk, uu) != 0;
               for (int b = 0; b < 32; b++) acc[b] = (unsigned char) ((acc[b] << 1 | acc[b] >> 7) ^ qq[(b + j) & 31]); }
